@@ -224,7 +224,7 @@ class G:
             lambda: U.module_function, lambda: complex(1, 2), lambda: bytearray(b"x"), lambda: np.array(U.Plain(1, 2), dtype=object),
             lambda: U.HiddenState([1, 2, 3]), lambda: object(), lambda: Ellipsis, lambda: U.Color.RED, lambda: 1 + 2j,
             lambda: memoryview(b"ab"), lambda: iter([1]), lambda: U.MyDefaultDict(list, {"a": [1]}),
-            lambda: np.bytes_(b"ab"), lambda: U.MyBytes(b"ab"), lambda: U.MyByteArray(b"cd"), lambda: [np.bytes_(b"x"), b"y"],
+            lambda: [b"one", b"two", U.NestedDump(3), b"three"], lambda: np.bytes_(b"ab"), lambda: U.MyBytes(b"ab"), lambda: U.MyByteArray(b"cd"), lambda: [np.bytes_(b"x"), b"y"],
             lambda: np.float64(1.5).__add__, lambda: slice(np.int64(1), None), lambda: U.Plain(np.arange(3), {"k": U.Plain(1, 2)}),
         ]
         return r.choice(makers)(), False
